@@ -57,6 +57,8 @@ def sessions_for(exe, tier, seed):
     # directed: the FIN handshake completes while received bytes are still unread (with and without loss)
     B = B + P.gen_parallel(exe, [f"C08/h/{base + i}" for i in range(max(n_short // 4, 16))],
                            lambda live, rng: P.halfclose_unread_session(live, rng, lossy=rng.random() < 0.5))
+    # directed: stale zero window, a little more data, graceful close, FIN overtaking the flushed data
+    B = B + P.gen_parallel(exe, [f"C08/w/{base + i}" for i in range(max(n_short // 3, 24))], P.stale_window_close_session)
     return A, B
 
 
